@@ -47,6 +47,10 @@ CHECKS = {
             "bounded exhaustive single/pairwise field-mutation enumeration (reflection walk with a complete field classification) over transaction/block templates; all-pairs distinctness of derived IDs; era replay through the real ValidateBlock",
             "Every single (thorough: pairwise) field mutation of rich v1/v2 transaction templates changes the ID and all derived IDs iff the field is classified effect-bearing (unclassified fields fail the run); all derived-ID kinds x indices x parents are pairwise distinct; sighashes bind purpose (independent preimage model) and era (hash level and end-to-end replay across every era pair); every content mutation of real v1/v2 blocks is rejected or changes the ID, v2 commitments bind every encoded state field and the miner address.",
             "Classification table written from the statement (Appendix C). Fixed: V2SiafundInput.ClaimAddress was not bound (repo commit 9ffdb79). Known finding: input-less v1 transactions carry no replay prefix (legacy consensus).", "3/C12"),
+    "C14": ("E2", "exploration",
+            "bounded exhaustive enumeration of policy trees x witness vectors x lock neighbourhoods against an independent recursive evaluator and an independent address derivation",
+            "All policy trees of the enumerated strata (every leaf kind and every unlock-conditions root; every threshold shape within the stated arity/depth/node budgets, every N in 0..arity+1) x every signature / preimage vector of every length 0..(consuming leaves+1) x heights h-1,h,h+1 and median times t-1s,t,t+1s: Verify agrees with the independent evaluator (accept/reject only); Address is invariant under every opaque substitution of sub-policies and a needed child made opaque turns acceptance into rejection; bit-flipped witnesses reject; complexity limits (255/256 children, 1024/1025 sub-policies, decode depth limit and limit+1) reject at limit+1 only; fast-path standard addresses equal the generic derivations and a naive Merkle root.",
+            "Nested trees are exhaustive only within explicit node budgets / reduced alphabets (reported in evidence; exhaustive=false is therefore always set, `stated_space_completed` says whether the described space was finished). Cases where the statement is silent (unreached entropy keys) are counted, not asserted.", "3/C14"),
     "C15": ("E2", "exploration",
             "bounded exhaustive enumeration (all ordered pairs of a boundary set x all operations) against math/big",
             "Every Currency operation on every ordered pair of a boundary set (bit boundaries, limb mixes, divisors of every "
@@ -61,6 +65,14 @@ CHECKS = {
             "exhaustive enumeration of v2 transaction sets over every accumulator shape plus explicit-state exploration; every block round-tripped through the real multiproof/outline codecs",
             "For every accumulator size up to N and every subset of <=3 live leaves (all subsets for <=10) spread over 1-3 transactions (+ephemeral chains), and for every accepted block of a union-alphabet exploration (storage-proof chain-index elements, ephemeral parents, duplicate leaves), V2TransactionsMultiproof / V2BlockData / V2Block encode->decode restores every proof bit-for-bit with unchanged ID, commitment and validity; for every block with <=4 transactions every omitted subset x every permutation of every candidate sub-pool completes to exactly the original block or reports exactly the missing hashes; outline codec round trip.",
             "Outline codec reached through an add-only export hook (overlay/files/gateway/export_outline_verif.go); bounds as reported.", "3/C18"),
+    "C19": ("E4", "fault_enumeration",
+            "exhaustive single-fault injection (every byte position x 3 flips, every truncation, extreme length prefixes) on recorded frames of real sessions through an in-memory man-in-the-middle; exhaustive size sweeps of every RPC object against the receiver's own limit",
+            "Every rhp/v4 and gateway RPC object at sizes 0,1,2,max-1,max,max+1 of every dimension (protocol maxima from the batch limits, Validate methods and independent proof-size arithmetic) is written with the real writer and read from a byte-counting endless reader: valid messages fit the receiver's limit and decode to equal objects, over-limit messages error, reads never exceed the limit, hostile length prefixes neither panic nor allocate out of proportion (worker subprocess); every predeclared error and description length/code is delivered as that RPCError; every sequence of <=3 message shapes over gateway, rhp/v3 and rhp/v2 transports arrives intact and in order; handshake mismatches are rejected; after any tampered frame the read fails, no later read succeeds and (rhp/v2, frame delivered completely) the session is closed.",
+            "mux-based transports are tampered only within the first 2 KiB (8 KiB thorough) per direction (dependency, deterministic-batching limit). Known findings: RPCFreeSectorsResponse worst case exceeds its own limit; RPCReadResponse decode precedes tag verification on the RawResponse path. Fixed: rhp/v2 size errors did not close the transport (repo commit fca6cd6).", "3/C19"),
+    "C20": ("E2", "exploration",
+            "bounded exhaustive enumeration of structured value domains (reflection deviations) for every text/JSON type, exhaustive single-character corruptions of identifiers, and JSON round trips of every update of an explicit-state chain exploration",
+            "For every type with a textual or JSON form (inventory built with go/parser at run time, 115 types) parse(print(v)) = v over boundary/base values and all single-field (thorough: pairwise) deviations, incl. all one-byte (thorough two-byte) specifiers, policies in string and JSON form, reused receivers; every single-character corruption of 16 addresses (76 positions x 15 digits) and length/alphabet/prefix corruptions of every identifier type are rejected without panic; for every block of a chain exploration (with reverts) the ApplyUpdate/RevertUpdate that went through JSON refreshes every tracked proof byte-identically to the original and to the reference forest.",
+            "Fixed in /repo: over-long hex panics (6472682), uc signature count bit size (b86819e), Specifier receiver not cleared (8c65687), update JSON dropped leaf hash/spent flag (32cfdbe). Known finding: the policy string grammar cannot carry key algorithms containing , ( ) [ ].", "3/C20"),
 }
 
 NOT_YET = {}
